@@ -8,7 +8,7 @@ mods, pat = sys.argv[1].split(","), sys.argv[2]
 for m in mods: importlib.import_module(m)
 e = Engine()
 import contracts.domain as d
-d.declare(e); d.declare_io(e); d.declare_licensing(e); d.declare_cli(e); d.declare_paths(e); d.declare_project(e); d.declare_toml(e); d.declare_config(e); d.declare_effects(e); d.declare_annotate(e); d.declare_copyright(e)
+d.declare(e); d.declare_io(e); d.declare_licensing(e); d.declare_cli(e); d.declare_paths(e); d.declare_project(e); d.declare_toml(e); d.declare_config(e); d.declare_effects(e); d.declare_annotate(e); d.declare_copyright(e); d.declare_header(e); d.declare_header_sections(e)
 allv=[]
 for lem in api.LEMMAS:
     if re.search(pat, lem.name):
